@@ -443,7 +443,27 @@ fn bb_desc(c: &BbCase) -> J {
 pub fn c02(ctx: &Ctx, begin: &mut dyn FnMut(J)) -> Outcome {
     let mut r = Rng::derive(ctx.seed, 0xC02, ctx.case);
     let mut case = gen_bb_case(&mut r, &BbGenCfg { allow_zero_len: true, no_zero_zero: false, small_slots: false, max_chroms: 6, ncols: None });
-    if ctx.case == 1 {
+    if ctx.case == 2 || ctx.case == 3 {
+        // very long and multi-byte rest fields (longer than any 8 KiB / 64 KiB buffer), with
+        // items_per_slot equal to the number of entries of a chromosome
+        let long_ascii: String = std::iter::repeat("abcdefghij").take(7_000).collect();
+        let long_mb: String = std::iter::repeat("\u{3b1}\u{e9}z").take(22_000).collect();
+        let mk = |name: &str, rests: Vec<String>| -> (Chrom, Vec<BedEntry>) {
+            (Chrom { name: name.into(), size: 5000 }, rests.into_iter().enumerate().map(|(i, r)| BedEntry { start: 10 * i as u32, end: 10 * i as u32 + 25, rest: r }).collect())
+        };
+        case.input = vec![
+            mk("chr1", vec!["a".into(), long_ascii.clone(), "b\tc".into(), long_mb.clone()]),
+            mk("chr2", vec![long_mb.clone(), "".into(), format!("x\t{}", long_ascii), "y".into()]),
+        ];
+        case.opts.items_per_slot = if ctx.case == 2 { 4 } else { 3 };
+        case.opts.multipass = ctx.case == 3;
+        case.opts.source = Source::Serial;
+        case.opts.sort_all = true;
+        case.extra.clear();
+        case.tags = vec!["very_long_rest".into()];
+        case.nontrivial = true;
+        begin(J::obj().set("opts", case.opts.to_json()).set("input", J::s("2 chromosomes x 4 entries, rest fields of 70 000 ASCII bytes and 110 000 bytes of multi-byte text")));
+    } else if ctx.case == 1 {
         case.input = many_chroms_bb(300);
         case.opts.source = Source::Serial;
         case.opts.sort_all = true;
